@@ -116,6 +116,9 @@ type Model struct {
 	Discard bool
 	cur     *exec
 	Closed  bool
+	// SrvClosing: a statement called Server.Close: the command it belongs to still completes (every
+	// statement runs, every result is delivered); afterwards the server ends the connection
+	SrvClosing bool
 	// UnknownPolicy: how an unknown-type message is expected to be answered:
 	// "" = open choice (E, then optional Z).
 }
@@ -305,6 +308,9 @@ func declaredOIDs(s *mStmt) []uint32 {
 func (m *Model) finish(out []Exp, evs []ExpEv, failed bool, why string, spec *script.ErrSpec) ([]Exp, []ExpEv) {
 	x := m.cur
 	m.cur = nil
+	if m.SrvClosing {
+		m.Closed = true
+	}
 	if failed {
 		out = append(out, Exp{T: 'E', Why: why, Err: spec})
 		if x.extended {
@@ -371,7 +377,9 @@ func (m *Model) resume() (out []Exp, evs []ExpEv) {
 				} else {
 					x.closed = true
 				}
-			case "written", "gate":
+			case "written", "gate", "cancelsess":
+			case "closesrv":
+				m.SrvClosing = true
 			case "ret":
 				ev.Writ = x.written
 				evs = append(evs, ev)
